@@ -172,10 +172,132 @@ class Registry:
         return None
 
     # -------- fresh symbolic values
-    def fresh(self, ex, state, typ, name, path=None):
+    _idx = None     # indexed mode: (prefix, [index terms]) -- see fresh_indexed
+
+    def _mk(self, name, sort):
+        """a fresh constant -- or, for the elements of an untrusted list (type ulist:), the application of a function
+        symbol named after the list and the position inside the element type to the element's index terms: reading the
+        same index twice yields the same value, and an index may be a quantified variable"""
+        if self._idx is None:
+            return z3.Const(fresh_name(name), sort)
+        prefix, idxs = self._idx
+        return z3.Function("%s!%s" % (prefix, name), *([z3.IntSort()] * len(idxs) + [sort]))(*idxs)
+
+    def fresh_indexed(self, ex, state, typ, name, path=None):
+        """element types usable under an index: scalars, none, any, const, unions, opt, ulist, udict / odict.  No
+        assumption is added to the state (alternatives are exhaustive by construction), so elements may be created
+        while a quantified clause is evaluated"""
         typ = typ.strip()
         if typ.startswith("@"):
+            typ = self.type_aliases[typ[1:]]
+        if "|" in typ and not typ.startswith(("odict:", "cdict:", "udict:", "ulist:")):
+            alts = [t.strip() for t in _split_top(typ, "|")]
+            vals = [self.fresh_indexed(ex, state, t, "%s|%d" % (name, i), path) for i, t in enumerate(alts)]
+            sel = self._mk(name + "?alt", z3.IntSort())
+            gs = [sel == i for i in range(len(alts) - 1)]
+            gs.append(z3.Not(z3.Or(*gs)) if gs else z3.BoolVal(True))
+            return mk_union(list(zip(gs, vals)))
+        if typ.startswith("opt:"):
+            isn = self._mk(name + "?none", z3.BoolSort())
+            return mk_union([(isn, VNone), (z3.Not(isn), self.fresh_indexed(ex, state, typ[4:], name, path))])
+        if typ == "int":
+            return VInt(self._mk(name, z3.IntSort()))
+        if typ == "bool":
+            return VBool(self._mk(name, z3.BoolSort()))
+        if typ == "real":
+            return VReal(self._mk(name, z3.RealSort()))
+        if typ == "bytes":
+            return VBytes(self._mk(name, BytesSort))
+        if typ == "str":
+            return VStr(self._mk(name, z3.StringSort()))
+        if typ == "none":
+            return VNone
+        if typ in ("any", "opaque"):
+            return VOpaque("%s!%s" % (self._idx[0], name))
+        if typ.startswith("const:"):
+            return ex.const(ast.literal_eval(typ[6:]))
+        if typ.startswith("ulist:"):
+            return self._fresh_ulist(ex, state, typ[6:], name, path)
+        if typ.startswith(("udict:", "odict:")):
+            return self._fresh_odict(ex, state, typ, name, path)
+        raise Unsupported("type %r as an element of an untrusted list" % typ)
+
+    def _fresh_ulist(self, ex, state, elem, name, path):
+        """untrusted list: symbolic length, elements materialised on access as functions of the index"""
+        o = HObj("ulist")
+        o.elem = elem
+        if self._idx is None:
+            nm = fresh_name(name)
+            o.n = z3.Int(nm + "#n")
+            state.assume(o.n >= 0)
+            o.uctx = (nm, [])
+        else:
+            n = self._mk(name + "#n", z3.IntSort())
+            o.n = z3.If(n >= 0, n, -n)
+            o.uctx = ("%s!%s" % (self._idx[0], name), list(self._idx[1]))
+        o.frozen = True
+        o.cache = {}
+        r = state.alloc(o)
+        if path:
+            state.paths[r.oid] = path
+        return r
+
+    def ulist_get(self, ex, state, o, idx):
+        key = idx.sexpr()
+        if key in o.cache:
+            return o.cache[key]
+        saved = self._idx
+        self._idx = (o.uctx[0], list(o.uctx[1]) + [idx])
+        try:
+            v = self.fresh_indexed(ex, state, o.elem, "e")
+        finally:
+            self._idx = saved
+        if not ex.quant_facts:          # an element read under a quantifier mentions the bound variable: not kept
+            o.cache[key] = v
+        return v
+
+    def _fresh_odict(self, ex, state, typ, name, path):
+        """odict: dict over a known key universe, each key optionally present.  udict: the same for an *untrusted* dict,
+        which may hold further keys (guard .other; possibly not strings): asking it for a key outside the declared
+        universe is an error of the contract (Unsupported), never answered with `absent`"""
+        o = HObj("dict")
+        o.d = {}
+        o.opt = {}
+        r = state.alloc(o)
+        mk = self._mk if self._idx is not None else (lambda n, srt: z3.Const(fresh_name(n), srt))
+        sub = self.fresh_indexed if self._idx is not None else self.fresh
+        for item in _split_top(typ[6:], ","):
+            if not item.strip():
+                continue
+            k, t = item.split("=", 1)
+            k = k.strip()
+            o.d[k] = sub(ex, state, t, name + "_" + k)
+            o.opt[k] = mk(name + "_has_" + k, z3.BoolSort())
+        if typ.startswith("udict:"):
+            o.kind = "udict"
+            o.open = True
+            o.other = mk(name + "_has_other", z3.BoolSort())
+            alien = mk(name + "_other_alien", z3.BoolSort())
+            ks = mk(name + "_other_key", z3.StringSort())
+            o.other_key = mk_union([(alien, sub(ex, state, "int|bool|none|real|bytes", name + "_other_akey")),
+                                    (z3.Not(z3.Or(alien, *[ks == z3.StringVal(c) for c in o.d])), VStr(ks)),
+                                    (z3.And(z3.Not(alien), z3.Or(*[ks == z3.StringVal(c) for c in o.d])) if o.d
+                                     else z3.BoolVal(False), VStr(z3.Concat(ks, z3.StringVal("\x00other"))))])
+            o.frozen = True
+        if path:
+            state.paths[r.oid] = path
+        return r
+
+    def fresh(self, ex, state, typ, name, path=None):
+        typ = typ.strip()
+        if self._idx is not None:
+            return self.fresh_indexed(ex, state, typ, name, path)
+        if typ.startswith("@"):
             typ = self.type_aliases[typ[1:]]        # named type (keeps nested unions readable / parseable)
+        if typ.startswith("ulist:"):
+            return self._fresh_ulist(ex, state, typ[6:], name, path)
+        if typ.startswith("udict:"):
+            return self._fresh_odict(ex, state, typ, name, path)
         if "|" in typ and not typ.startswith(("odict:", "cdict:")):
             alts = [t.strip() for t in _split_top(typ, "|")]
             vals = [self.fresh(ex, state, t, name, path) for t in alts]
